@@ -481,6 +481,49 @@ func evalCall(pr *ProgResult, pl *InjPlan, items map[string]*Item, ct *CallTrace
 			pr.Stats[fmt.Sprintf("cleanups_%d", len(acquired))]++
 		}
 	}
+	// one instance per type per call: every consumer of a pointer-like type (and the injector's
+	// result) must see the same address, whatever the kind of its source (a struct provider's
+	// pointer form and the concrete value behind a binding included)
+	addrOf := map[string]uint64{}
+	seeAddr := func(k string, d *D, who string) {
+		if d == nil || d.Addr == 0 || (d.K != "ptr" && d.K != "map" && d.K != "chan") {
+			return
+		}
+		rk := k
+		if pv, _ := pl.Info.resolve(k); pv != nil {
+			rk = pv.Ty.Key(p)
+			if pv.Item != nil && pv.Item.Kind == KFields {
+				rk = k
+			}
+		}
+		pr.Stats["same_instance_checked"]++
+		if prev, ok := addrOf[rk]; ok && prev != d.Addr {
+			prop := "C02"
+			if pv := pl.Info.prov[k]; pv != nil && pv.Item != nil && pv.Item.Kind == KBind {
+				prop = "C11"
+			}
+			pr.add(prop, fmt.Sprintf("%s received a different instance of %s than an earlier consumer in the same call (%#x vs %#x): its source was evaluated twice", who, k, d.Addr, prev), wit())
+			return
+		}
+		addrOf[rk] = d.Addr
+	}
+	for i := range ct.Events {
+		e := &ct.Events[i]
+		switch e.Ev {
+		case "prov", "prov_fail":
+			it := items[e.Key]
+			if it == nil || len(e.In) != len(it.Params) {
+				continue
+			}
+			for j, t := range it.Params {
+				seeAddr(t.Key(p), e.In[j], "provider "+e.Key)
+			}
+		case "inj_ret":
+			if e.Err == 0 {
+				seeAddr(pl.Inj.Result.Key(p), e.Res, "the injector's caller")
+			}
+		}
+	}
 	// pointer identity: a consumer of a pointer-typed dependency must receive the very
 	// pointer its source produced (bindings share the instance; field pointers alias the field)
 	for i := range ct.Events {
